@@ -453,8 +453,8 @@ DataInt(len)      == [i \in 1..len |-> <<(i * 5) % 7, 1>>]            \* 5 3 1 6
 DataIntNeg(len)   == [i \in 1..len |-> <<((i * 5) % 7) - 3, 1>>]      \* signed dtypes only
 DataFloat(len)    == [i \in 1..len |-> RNorm(2 * ((i * 5) % 7) - 5, 4)] \* 5/4 1/4 -3/4 7/4 ...
 DataFloatInt(len) == [i \in 1..len |-> <<i - 2, 1>>]                  \* -1.0 0.0 1.0 : integral floats must stay floats
-ShapesQ == <<<<0>>, <<1>>, <<3>>, <<1, 1>>, <<2, 2>>, <<0, 2>>, <<2, 0>>>>
-ShapesT == ShapesQ \o <<<<5>>, <<2, 3>>, <<3, 1>>, <<2, 1, 2>>, <<0, 0>>, <<1, 0, 2>>>>
+ShapesQ == <<<<0>>, <<1>>, <<3>>, <<1, 1>>, <<2, 2>>, <<2, 3>>, <<0, 2>>, <<2, 0>>>>
+ShapesT == ShapesQ \o <<<<5>>, <<3, 1>>, <<2, 1, 2>>, <<0, 0>>, <<1, 0, 2>>>>
 Shapes  == IF Thorough THEN ShapesT ELSE ShapesQ
 DtypesQ == <<"int32", "int64", "float32", "float64", "int8", "uint16", "float16">>
 DtypesT == DtypesQ \o <<"int16", "uint8", "uint32", "uint64">>
